@@ -995,6 +995,26 @@ def c16_unsolved(n, seed, procs):
                         r = pep2.solve(verbose=0, solver=bad_solver)
                     fails.append(dict(what="invalid solver name %r accepted (returned %r)" % (bad_solver, r), oracle="c16_unsolved", input=dict(option=dict(solver=str(bad_solver))), tags=["c16"]))
                 except Exception: pass
+        if it % 5 == 1:
+            # option values of the primitive steps: only the documented strings are accepted; near misses (substrings, other
+            # case, padding, concatenations, non-strings) must raise, never silently select a behaviour
+            from PEPit.primitive_steps import inexact_gradient_step, inexact_proximal_step
+            for stepname, call, good, bads in (
+                    ("inexact_gradient_step(notion=%r)", lambda f_, x_, v: inexact_gradient_step(x_, f_, gamma=.5, epsilon=.1, notion=v), ("absolute", "relative"),
+                     ("abs", "rel", "", "e", "Absolute", "relative ", " absolute", "absoluterelative", "solute", "relative_", None, 1, ("absolute",))),
+                    ("inexact_proximal_step(opt=%r)", lambda f_, x_, v: inexact_proximal_step(x_, f_, gamma=.5, opt=v), ("PD_gapI", "PD_gapII", "PD_gapIII"),
+                     ("PD_gap", "PD_gapIV", "gapI", "", "pd_gapi", "PD_gapI ", "I", "PD_gapIIII", "PD_gapIPD_gapII", None, 2))):
+                for v in good:
+                    p4 = PEP(); f4 = p4.declare_function(PF.SmoothConvexFunction, L=1.); x4 = p4.set_initial_point()
+                    try: call(f4, x4, v)
+                    except Exception as ex:
+                        fails.append(dict(what=(stepname % v) + " (a documented value) raises %s" % type(ex).__name__, oracle="c16_unsolved", input=dict(option=repr(v)), tags=["c16"]))
+                for v in bads:
+                    p4 = PEP(); f4 = p4.declare_function(PF.SmoothConvexFunction, L=1.); x4 = p4.set_initial_point()
+                    try:
+                        call(f4, x4, v)
+                        fails.append(dict(what="invalid option value accepted: " + (stepname % (v,)) + " returns instead of raising", oracle="c16_unsolved", input=dict(option=repr(v)), tags=["c16"]))
+                    except (ValueError, TypeError, AssertionError): pass
         if it < 2: samples.append(desc)
         if len(fails) > 5: break
     return dict(evaluations=n, distinct=len(distinct), failures=fails[:5], samples=samples)
